@@ -13,6 +13,8 @@ B2  every shape (8 shapes x placement of each include file in the same / a sub /
     inline), merge_includes gives a directive-free text that reloads ==; an /include inside the
     A2ML block; faults: missing file, directory instead of file, missing nested file, self
     include, mutual include (each in its own process with a time limit).
+B3  family subblock: in the positive document of every element of the grammar (MC_ParserCases) each block
+    below MODULE level is in turn taken from an include file; same relations.
 """
 import json
 import os
@@ -254,6 +256,103 @@ def judge(c, r, rep, prep):
         bad("merge_includes", f"output after merge_includes() does not reload to an equal model {r.get('merged_reload_error', '')}")
 
 
+# --------------------------------------------------------------------------------------------
+# family "subblock": every block of every element of the grammar taken from an include file
+# --------------------------------------------------------------------------------------------
+TOK = re.compile(r'"(?:[^"\\]|\\.|"")*"|/\*.*?\*/|//[^\n]*|[^\s"]+', re.S)
+
+
+def sub_blocks(text):
+    """(start, end) character ranges of the /begin X ... /end X blocks below MODULE level (children of MODULE and deeper),
+    the A2ML block (raw text with a syntax of its own, family a2ml) left out"""
+    out, stack = [], []
+    toks = [(m.group(0), m.start(), m.end()) for m in TOK.finditer(text)]
+    i = 0
+    while i < len(toks):
+        t, a, b = toks[i]
+        if t == "/begin":
+            stack.append((toks[i + 1][0], a))
+            i += 2
+            continue
+        if t == "/end":
+            tag, a0 = stack.pop()
+            if len(stack) >= 2 and tag != "A2ML" and not any(x[0] == "A2ML" for x in stack):
+                out.append((tag, a0, toks[i + 1][2]))
+            i += 2
+            continue
+        i += 1
+    return out
+
+
+def subblock_cases(root, tier):
+    """positive documents of MC_ParserCases (every element of the grammar with all its sub-elements): one case per block"""
+    import parsercases as pc
+    res = vlib.tlc("MC_ParserCases", workers=8, coverage=False, timeout=900)
+    pos = [c for c in res.prints("CASE") if c["k"] == "pos" and c.get("ver") == 171]
+    prepared, metas = [], []
+    seen = set()
+    for c in pos:
+        text = pc.concretise(c)
+        for tag, a, b in sub_blocks(text):
+            block = text[a:b]
+            key = (tag, block)
+            if tier != "thorough" and key in seen:      # quick: every distinct block text once
+                continue
+            seen.add(key)
+            n = len(prepared)
+            d = os.path.join(root, f"sb{n}")
+            src, dst = os.path.join(d, "src"), os.path.join(d, "out")
+            os.makedirs(src)
+            os.makedirs(dst)
+            main = text[:a] + '/include "part.a2l"' + text[b:]
+            for dd in (src, dst):
+                with open(os.path.join(dd, "part.a2l"), "w") as f:
+                    f.write(block + "\n")
+            with open(os.path.join(src, "main.a2l"), "w") as f:
+                f.write(main)
+            prepared.append({"id": f"sb{n}", "main": os.path.join(src, "main.a2l"), "flat": text, "outdir": dst})
+            metas.append({"fam": "subblock", "e": c["e"], "tag": tag, "main": main, "part": block, "flat": text})
+    return prepared, metas
+
+
+def judge_subblock(m, r, rep):
+    replay = {"kind": "subblock", "case": m}
+
+    def bad(sig, msg):
+        rep.violation(f"include:{sig}:subblock:{m['tag']}", f"{m['tag']} of {m['e']} taken from an include file: {msg}", replay)
+    if r.get("load") != "ok":
+        return bad("load", f"load failed: {r.get('error')}")
+    if "flat_error" in r:
+        vlib.tool_error(f"positive document does not load: {r['flat_error']}")
+    if not r.get("eq_flat"):
+        bad("flatten", "the model differs from the model of the text with the block in place")
+    if r.get("reload") != "ok":
+        bad("reload", f"the written main file does not load: {r.get('reload_error') or r.get('write_error')}")
+    elif not r.get("eq_reload"):
+        bad("reload", "loading the written main file gives a different model")
+    def toks(t):        # the writer prints hexadecimal digits in upper case
+        return [x.lower() if re.fullmatch(r"0[xX][0-9a-fA-F]+", x) else x for x in TOK.findall(t)]
+    if toks(r.get("written", "")) != toks(m["main"]):
+        bad("directives", "the written main file does not hold the tokens of the original main file (one /include at the place of the block)")
+    if r.get("merged_has_directive"):
+        bad("merge_includes", "output after merge_includes() still contains an /include directive")
+    if "merged_reload_error" in r or not r.get("eq_merged_reload") or not r.get("eq_flat_after_merge_includes"):
+        bad("merge_includes", f"output after merge_includes() does not reload to the model of the text with the block in place {r.get('merged_reload_error', '')}")
+
+
+def run_subblocks(binp, rep, tier, root):
+    prepared, metas = subblock_cases(root, tier)
+    if len(prepared) < 300:
+        vlib.tool_error(f"vacuity: only {len(prepared)} sub-block cases")
+    pth = os.path.join(vlib.scratch(), "inc_subblock_cases.ndjson")
+    vlib.write_ndjson(pth, prepared)
+    rc, lines, err = vlib.run_harness(binp, ["include-op", "--cases", pth], timeout=3000)
+    results = {l["id"]: l for l in lines if "id" in l}
+    for p, m in zip(prepared, metas):
+        judge_subblock(m, results.get(p["id"]) or run_one(binp, p), rep)
+    return len(prepared), len({m["tag"] for m in metas})
+
+
 def run(tier, selftest):
     t0 = time.time()
     rep = vlib.Reporter(PID)
@@ -297,6 +396,7 @@ def run(tier, selftest):
             results[p["id"]] = run_one(binp, p)
     for p, c in zip(prepared, cases):
         judge(c, results[p["id"]], rep, p)
+    nsub, ntags = run_subblocks(binp, rep, tier, root)
     binding = None
     if selftest or tier == "thorough":
         c = next(c for c in cases if c["fam"] == "shape" and c["sh"] == "flat1")
@@ -321,6 +421,8 @@ def run(tier, selftest):
         "samples": [cases[0], next(c for c in cases if c["fam"] == "fault")],
         "families": fams,
         "generated_include_trees": ngen,
+        "blocks_of_grammar_elements_taken_from_an_include_file": nsub,
+        "distinct_block_tags_included": ntags,
         "expected_violation_config": {"cfg": "MC_Include_Innermost", "violated": res_i.violation},
     }
     if binding:
@@ -344,6 +446,19 @@ def replay(path):
         res = vlib.tlc("MC_Include", workers=8, coverage=False, timeout=900, expect_violation=True)
         if res.violation:
             rep.violation(f"include-spec:{res.violation}", "TLC property violated", case)
+    elif case.get("kind") == "subblock":
+        m = case["case"]
+        d = os.path.join(vlib.scratch(), "include_replay_sb")
+        src, dst = os.path.join(d, "src"), os.path.join(d, "out")
+        os.makedirs(src)
+        os.makedirs(dst)
+        for dd in (src, dst):
+            with open(os.path.join(dd, "part.a2l"), "w") as f:
+                f.write(m["part"] + "\n")
+        with open(os.path.join(src, "main.a2l"), "w") as f:
+            f.write(m["main"])
+        p = {"id": "sb0", "main": os.path.join(src, "main.a2l"), "flat": m["flat"], "outdir": dst}
+        judge_subblock(m, run_one(binp, p), rep)
     else:
         root = os.path.join(vlib.scratch(), "include_replay")
         os.makedirs(root)
